@@ -265,12 +265,13 @@ package lang
 //@   opt constant
 //@   ensures result != nil && result.Tag == ValueObj && result.Obj != nil && *result.Obj != nil
 
-//@ func NewValue [C04,C05]
+//@ func NewValue [C04,C05,C16]
 //@   requires isGoSrc(srcVal)
 //@   assume json-tree-elements: isGoSrc(arg0) @ NewValue
 //@   modifies nothing
 //@   loop 0 invariant len-tracks-index: rangeindex + 1 == len(arr) && rangeindex >= 0 - 1 && rangeindex + 1 <= len(val) && fresh(arr)
 //@   loop 1 invariant len-tracks-index: rangeindex + 1 == len(arr) && rangeindex >= 0 - 1 && rangeindex + 1 <= len(val) && fresh(arr)
+//@   loop 1 invariant[C16] strings-so-far: forall k int :: 0 <= k && k <= rangeindex ==> arr[k] != nil && fresh(arr[k]) && arr[k].Value.Tag == ValueStr && *arr[k].Value.Str == val[k]
 //@   loop 2 invariant own-map: obj != nil && fresh(obj)
 //@   ensures[C04] nil-is-null: srcVal == nil ==> result.Tag == ValueNil && result.ParentObj == nil && result.Str == nil && result.Num == nil
 //@   ensures[C04] bool: istype(srcVal, bool) ==> result.Tag == ValueBool && fresh(result.Bool) && *result.Bool == as(srcVal, bool)
@@ -281,6 +282,7 @@ package lang
 //@   ensures[C04] cells: istype(srcVal, "[]*Cell") ==> result.Tag == ValueArray && result.Array == as(srcVal, "[]*Cell")
 //@   ensures[C04] array-length: istype(srcVal, "[]any") ==> result.Tag == ValueArray && len(result.Array) == len(as(srcVal, "[]any"))
 //@   ensures[C04] strings-length: istype(srcVal, "[]string") ==> result.Tag == ValueArray && len(result.Array) == len(as(srcVal, "[]string"))
+//@   ensures[C04,C16] strings-elements: istype(srcVal, "[]string") ==> (forall k int :: 0 <= k && k < len(as(srcVal, "[]string")) ==> result.Array[k].Value.Tag == ValueStr && *result.Array[k].Value.Str == as(srcVal, "[]string")[k])
 //@   ensures[C04] object: istype(srcVal, "map[string]any") ==> result.Tag == ValueObj && fresh(result.Obj)
 
 // ---------------------------------------------------------------- printf (C18, C20)
@@ -1318,6 +1320,13 @@ package lang
 //@   implements Value.NativeFn
 //@   ensures[C16] counts-bytes: this != nil && this.Tag == ValueStr ==> err == nil && result0 != nil && result0.Tag == ValueNum && same(*result0.Num, numOf(len(*this.Str)))
 //@   ensures[C16] neutral-otherwise: (this == nil || this.Tag != ValueStr) ==> err == nil && result0 != nil && result0.Tag == ValueNum && same(*result0.Num, numOf(0))
+//@   modifies nothing
+// string.split(sep): the pieces of the library's strings.Split applied to receiver and separator, in order
+//@ func getStrPrototype/split [C16]
+//@   implements Value.NativeFn
+//@   ensures[C16] separator-required: this != nil && this.Tag == ValueStr ==> ((err != nil) <==> (len(v) < 1 || v[0].Tag != ValueStr))
+//@   ensures[C16] pieces-of-the-receiver-split-at-the-separator: this != nil && this.Tag == ValueStr && err == nil ==> result0 != nil && result0.Tag == ValueArray && len(result0.Array) == smt("s_split_n", int, *this.Str, *v[0].Str) && (forall k int :: 0 <= k && k < len(result0.Array) ==> result0.Array[k].Value.Tag == ValueStr && *result0.Array[k].Value.Str == smt("s_split_at", string, *this.Str, *v[0].Str, k))
+//@   ensures[C16] neutral-otherwise: (this == nil || this.Tag != ValueStr) ==> err == nil && result0 != nil && result0.Tag == ValueArray && len(result0.Array) == 0
 //@   modifies nothing
 //@ func getStrPrototype/lower [C16]
 //@   implements Value.NativeFn
